@@ -85,7 +85,7 @@ func lex(s string) ([]token, *PGError) {
 			for j < len(s) && isIdentPart(s[j]) {
 				j++
 			}
-			toks = append(toks, token{kind: tIdent, text: strings.ToLower(s[i:j]), pos: i})
+			toks = append(toks, token{kind: tIdent, text: Ident63(strings.ToLower(s[i:j])), pos: i})
 			i = j
 		case c >= '0' && c <= '9':
 			j := i
@@ -122,7 +122,7 @@ func lex(s string) ([]token, *PGError) {
 			if sb.Len() == 0 {
 				return nil, syntaxErr("zero-length delimited identifier")
 			}
-			toks = append(toks, token{kind: tQIdent, text: sb.String(), pos: i})
+			toks = append(toks, token{kind: tQIdent, text: Ident63(sb.String()), pos: i})
 			i = j
 		case c == '\'':
 			j := i + 1
@@ -226,6 +226,23 @@ func splitStatements(toks []token) [][]token {
 		res = append(res, cur)
 	}
 	return res
+}
+
+// Ident63: PostgreSQL truncates identifiers in statements to 63 bytes (NAMEDATALEN-1, with a notice); values compared
+// with catalog columns (information_schema … table_name = $1) are ordinary strings and are not truncated.
+func Ident63(s string) string {
+	if len(s) > 63 {
+		return s[:63]
+	}
+	return s
+}
+
+// QName63 applies Ident63 to both parts of schema.name.
+func QName63(q string) string {
+	if i := strings.IndexByte(q, '.'); i >= 0 {
+		return Ident63(q[:i]) + "." + Ident63(q[i+1:])
+	}
+	return Ident63(q)
 }
 
 // normalize renders tokens in a canonical spelling (used for shape recognition).
